@@ -65,6 +65,7 @@ type CheckResult struct {
 	LoadS     float64
 	Corpus    map[string]interface{}
 	Lean      map[string]interface{}
+	Bounded   map[string]interface{}
 }
 
 // runProperty: generate and discharge every obligation tagged with the property.
@@ -250,6 +251,18 @@ func cmdCheck(args []string) int {
 	res.LoadS = loadS
 	if *tier == "thorough" && *outDir == "" && os.Getenv("SXV_NO_CORPUS") == "" {
 		res.Corpus = runCorpus(*repo, *prop)
+	}
+	if *prop == "C18" && *tier == "thorough" && os.Getenv("SXV_NO_BOUNDED") == "" {
+		b, o := runBoundedC18(*repo)
+		res.Bounded = b
+		if o != nil {
+			if o.StructOK {
+				o.Status, o.Solver = "discharged", "bounded-enumeration"
+			} else {
+				o.Status, o.Solver, o.Output = "failed", "bounded-enumeration", o.StructMsg
+			}
+			res.Obls = append(res.Obls, o)
+		}
 	}
 	usesLean := false
 	for a := range res.Assumed {
@@ -452,6 +465,9 @@ func report(res *CheckResult, p *Program, repo, tier string, seed int, evidenceP
 	}
 	if res.Corpus != nil {
 		cov["must_fail_corpus"] = res.Corpus
+	}
+	if res.Bounded != nil {
+		cov["bounded_component"] = res.Bounded
 	}
 	if res.Lean != nil {
 		cov["lemma_layer"] = res.Lean
